@@ -206,6 +206,17 @@ def c17_6(ctx):
     out = []
     for n in cfg.returns():
         v = n.ast.value
+        if isinstance(v, ast.Constant) and v.value is False:
+            # an early rejection: it must be implied by hash > target for *every* target, so it has to look at the target
+            preds = [t for t in cfg.tests() if any(b == n.id for b, _ in cfg.succ[t.id])]
+            about_target = any("target" in ast.unparse(expand(fn, t.id, t.ast, depth=4)) or "bits" in ast.unparse(expand(fn, t.id, t.ast, depth=4)) for t in preds)
+            if preds and not about_target:
+                out.append(ctx.bad(spec, "`%s` rejects the header without looking at its target: a shortcut that is only implied by hash <= target for some targets "
+                                         "(leading zero bytes, for targets up to 2^224) fails valid headers of easier targets (regtest 207fffff, signet)" %
+                                   ast.unparse(preds[0].ast), preds[0].ast, mod, key="pow-early-reject"))
+            else:
+                out.append(ctx.err(spec, "early `return False` not understood", v, mod))
+            continue
         if not (isinstance(v, ast.Compare) and len(v.ops) == 1):
             out.append(ctx.err(spec, "verdict `%s` is not a single comparison" % ast.unparse(v), v, mod))
             continue
@@ -287,10 +298,13 @@ def c17_8(ctx):
         out = []
         for n in cfg_of(f).stmts(("stmt",)):
             a = n.ast
-            if isinstance(a, ast.Assign) and "bits_to_target" in ast.unparse(a.value):
-                for x in ast.walk(a.value):
-                    if isinstance(x, ast.Name) and x.id == td:
-                        out.append((n, x))
+            if isinstance(a, (ast.Assign, ast.Return)) and a.value is not None:
+                # the retarget product: a multiplication one operand of which is the time differential
+                for b in ast.walk(a.value):
+                    if isinstance(b, ast.BinOp) and isinstance(b.op, ast.Mult):
+                        for x in (b.left, b.right):
+                            if isinstance(x, ast.Name) and x.id == td:
+                                out.append((n, x))
         return out
     out = rl.value_range(ctx, spec, site_td, ISet.range(TWO_WEEKS // 4, TWO_WEEKS * 4), {td: ISet.top()}, names, prefer=(TWO_WEEKS * 4 + 1, TWO_WEEKS // 4 - 1),
                          what="time differential used for the retarget", key="clamp")
@@ -302,10 +316,38 @@ def c17_8(ctx):
     out.append(rl.const_eq(ctx, "helper", "MAX_TARGET", MAX_TARGET, "0xffff·256^26"))
     # formula: previous target * time differential // two weeks
     src = ast.unparse(fn)
-    if "bits_to_target(previous_bits) * %s // TWO_WEEKS" % td in src:
-        out.append(ctx.ok(spec, "new target = old target · Δt // two weeks (integer arithmetic)", fn, mod, key="formula"))
+    formula = None
+    divfirst = None
+    for n in cfg_of(fn).stmts(("stmt", "return")):
+        a = n.ast
+        v = a.value if isinstance(a, (ast.Assign, ast.Return)) else None
+        if v is None:
+            continue
+        ex = expand(fn, n.id, v, depth=4, stop=(td,))
+        for b in ast.walk(ex):
+            if isinstance(b, ast.BinOp) and isinstance(b.op, ast.Mult) and any(isinstance(x, ast.BinOp) and isinstance(x.op, ast.FloorDiv) and "bits_to_target" in ast.unparse(x.left)
+                                                                               and Folder(ctx.repo, mod.name).fold(x.right) == TWO_WEEKS for x in (b.left, b.right)) \
+                    and any(ast.unparse(x) == td for x in (b.left, b.right)):
+                divfirst = b
+            if isinstance(b, ast.BinOp) and isinstance(b.op, ast.FloorDiv) and isinstance(b.left, ast.BinOp) and isinstance(b.left.op, ast.Mult) \
+                    and Folder(ctx.repo, mod.name).fold(b.right) == TWO_WEEKS:
+                ops = (ast.unparse(b.left.left), ast.unparse(b.left.right))
+                if any(o == td for o in ops) and any("bits_to_target(previous_bits)" in o for o in ops):
+                    formula = (b, ops)
+    if formula:
+        old_t = next(o for o in formula[1] if o != td)
+        if old_t == "bits_to_target(previous_bits)":
+            out.append(ctx.ok(spec, "new target = old target · Δt // two weeks (integer arithmetic)", fn, mod, key="formula"))
+        else:
+            out.append(ctx.bad(spec, "the retarget multiplies `%s` instead of the previous target itself: clamping (or otherwise changing) the operand before scaling is not "
+                                     "the consensus formula min(old_target * Δt // two_weeks, limit)" % old_t, formula[0], mod, key="formula"))
+    elif divfirst is not None:
+        out.append(ctx.bad(spec, "`%s` divides by two weeks before multiplying: the quotient is truncated first, so the new target (and the bits) differ from "
+                                 "old_target * Δt // two_weeks" % ast.unparse(divfirst)[:80], divfirst, mod, key="formula"))
+    elif any(isinstance(b, ast.BinOp) and isinstance(b.op, ast.Div) for b in ast.walk(fn)):
+        out.append(ctx.bad(spec, "retarget formula uses true division", fn, mod, key="formula"))
     else:
-        out.append(ctx.bad(spec, "retarget formula is not old_target * Δt // TWO_WEEKS", fn, mod, key="formula"))
+        out.append(ctx.err(spec, "retarget formula old_target * Δt // TWO_WEEKS not recognised", fn, mod))
     return out
 
 
@@ -394,6 +436,41 @@ def c17_11(ctx):
                           "GetCompact" % (padded.describe({}), hex(w) if isinstance(w, int) else w), fn, mod, key="sign-cut", detail={"witness_value": str(w)})]
 
 
+def c17_13(ctx):
+    """merkle_root over an *uninterpreted* hash: the pairing function is replaced by a formal constructor H(a, b), and the root the
+    code builds for 1..17 leaves is compared term by term with Bitcoin's tree (pair up, duplicate the last element of odd levels,
+    a single leaf is its own root).  Being computed over a free term algebra, the comparison holds for every hash value"""
+    from sa.cells import Evaluator, Raised, Undecided
+    spec = "helper:merkle_root"
+    mod, fn = rl.get(ctx, spec)
+
+    def opaque(name, args, kw):
+        if name == "merkle_parent":
+            return ("H", args[0], args[1])
+        return NotImplemented
+
+    def ref(level):
+        level = list(level)
+        while len(level) > 1:
+            if len(level) % 2:
+                level.append(level[-1])
+            level = [("H", level[i], level[i + 1]) for i in range(0, len(level), 2)]
+        return level[0]
+    for n in range(1, 18):
+        leaves = [b"L%02d" % i for i in range(n)]
+        try:
+            r = Evaluator(ctx.repo, opaque=opaque).call(spec, [list(leaves)])
+        except Undecided as u:
+            return [ctx.err(spec, "merkle_root not evaluable for %d leaves: %s" % (n, u), fn, mod)]
+        except Raised as x:
+            return [ctx.bad(spec, "merkle_root of %d transaction id%s raises %s%s" % (n, "" if n == 1 else "s", x.name,
+                            ": a block with only its coinbase (the genesis block) has that id as its root" if n == 1 else ""), fn, mod, key="merkle-shape")]
+        if r != ref(leaves):
+            return [ctx.bad(spec, "the tree built for %d leaves is not Bitcoin's (pairwise, last element of an odd level duplicated)" % n, fn, mod, key="merkle-shape")]
+    ctx.count("cells", 17)
+    return [ctx.ok(spec, "for 1..17 leaves the root term equals Bitcoin's Merkle tree over a formal hash", fn, mod, key="merkle-shape")]
+
+
 def c17_12(ctx):
     """MerkleBlock.is_valid rebuilds the partial tree from the object's current flags, hashes and total on every call: no path
     reaches the verdict without populate_tree(...) over them (a verdict taken from an earlier build vouches for fields that
@@ -429,5 +506,6 @@ OBLIGATIONS = [
     ("C17.10", "BITS", c17_10),
     ("C17.11", "RANGE partition", c17_11),
     ("C17.12", "MUST-PASS", c17_12),
+    ("C17.13", "CELLS formal hash", c17_13),
 ]
 FLOORS = {"C17.1": 3, "C17.3": 3, "C17.4": 2, "C17.5": 6, "C17.6": 2, "C17.7": 2, "C17.8": 4, "C17.9": 2}
